@@ -52,6 +52,15 @@ def facts_controls(ctx, rep):
     want = {"fmt_bad": False, "fmt_ok": True, "fmt_s_bad": False, "fmt_s_ok": True, "cpy_bad": False, "cpy_ok": True, "fld_bad": False, "fld_ok": True}
     if {k: sw.get(k) for k in want} != want:
         _fail(rep, "string-writers", "sprintf/strcpy into fixed buffers control: %s" % {k: sw.get(k) for k in want})
+    from .props.c08 import divisor_nonzero
+    dv = {}
+    for fname in ("div_bad", "div_ok", "div_ok2"):
+        fn = mod.fn(fname)
+        Fd, Md = Facts(fn), Matcher(fn)
+        sites = [i for i in fn.insts() if i.op in ("udiv", "sdiv", "urem", "srem") and i.ops[1][0] == "v"]
+        dv[fname] = bool(sites) and all(divisor_nonzero(mod, fn, Fd, Md, i, i.ops[1]) is not None for i in sites)
+    if dv != {"div_bad": False, "div_ok": True, "div_ok2": True}:
+        _fail(rep, "division", "non-zero divisor control: %s" % dv)
     imod = ctx.fixture("fx_facts", inline=True)
     sel = {}
     for fname in ("flagsel_ok", "flagsel_bad"):
@@ -111,6 +120,9 @@ def own_controls(ctx, rep):
         res[fname] = (bool(own.leak_paths(fn, a)), bool(own.unchecked_derefs(fn, a)))
     if not (res["leak_bad"][0] and not res["leak_ok"][0] and res["deref_bad"][1] and not res["deref_ok"][1]):
         _fail(rep, "own", "ownership control: %s" % res)
+    rp = {f_: bool(own.leak_paths(mod.fn(f_), [i for i in mod.fn(f_).insts() if own.is_alloc_call(i)][0])) for f_ in ("new_bad", "new_ok")}
+    if rp != {"new_bad": True, "new_ok": False}:
+        _fail(rep, "own", "merged-return constructor control: %s" % rp)
     from .nullstate import NullState
     from .rules import stores_to_field
     cg = CallGraph(mod)
